@@ -745,6 +745,20 @@ func (e *engine) resolvePremiseFacts(premises []ast.Term, sol unionfind.UnionFin
 		if err != nil {
 			continue
 		}
+		if !ground.IsGround() {
+			// A wildcard is not part of the substitution. Any stored fact
+			// that matches is the concrete atom of this premise.
+			pattern, found := ground, false
+			e.store.GetFacts(pattern, func(fact ast.Atom) error {
+				if found {
+					return nil
+				}
+				if _, err := unionfind.UnifyTermsExtend(pattern.Args, fact.Args, unionfind.New()); err == nil {
+					ground, found = fact, true
+				}
+				return nil
+			})
+		}
 		out[i] = ground
 	}
 	return out
